@@ -14,7 +14,7 @@ FCl == {<<"random", 1>>, <<"random", 2>>, <<"unit", 0>>, <<"unit", 255>>, <<"uni
         \* shaped relative to the index divided at
         <<"rel:unit-1", 0>>, <<"rel:unit+1", 0>>, <<"rel:step", 0>>, <<"rel:plateau", 0>>, <<"rel:prefix", 0>>}
         \cup (IF Tier = "quick" THEN {} ELSE {<<"random", s>> : s \in 3 .. 10} \cup {<<"unit", s>> : s \in {1, 2, 100, 127, 129, 200, 254}})
-ZCl == {"256", "257", "2^64", "r-1", "r-2", "h", "rnd1", "rnd2", "300", "65536"} \cup (IF Tier = "quick" THEN {} ELSE {"rnd3", "rnd4", "rnd5", "rnd6", "511", "512", "1000000"})
+ZCl == {"256", "257", "2^64", "r-1", "r-2", "h", "rnd1", "rnd2", "300", "65536", "2^64+5", "2^128+255", "2^192+5"} \cup (IF Tier = "quick" THEN {} ELSE {"rnd3", "rnd4", "rnd5", "rnd6", "511", "512", "1000000"})
 Cases == {[Blank EXCEPT !.kind = "divide", !.f = fc[1], !.j = fc[2], !.k = ch] : fc \in FCl, ch \in Chunks}
          \cup {[Blank EXCEPT !.kind = "bary", !.z = z, !.f = fc[1], !.j = fc[2], !.full = (z \in {"256", "r-1", "rnd1"} /\ fc[1] = "random" /\ fc[2] = 1)] :
                  z \in ZCl, fc \in {<<"random", 1>>, <<"x255", 0>>, <<"unit", 255>>, <<"max", 0>>}}
